@@ -332,6 +332,18 @@ def logDecode (v : Variant) (b : Bytes) : Except Exc Str :=
     | some s => pure s
     | none => throw (.named "UnicodeDecodeError")
 
+/-- the payload text of the HTTP response log record: nothing for 'summary'; otherwise the BYTES are cut at the
+    maximum length first and decoded afterwards, then '...' is appended -/
+def LogRec.respPayloadText (v : Variant) (r : LogRec) (b : Bytes) : Except Exc Str :=
+  if r.httpLevel = some .summary then pure []
+  else match r.httpMax with
+    | some n =>
+      if n ≠ 0 ∧ b.length > n then do
+        let s ← logDecode v (b.take n)
+        pure (s ++ "...".toList)
+      else logDecode v b
+    | none => logDecode v b
+
 /-- mirrors LogOperationRecorder.stage_http_response2 -/
 def LogRec.stageHttpResponse2 (v : Variant) (r : LogRec) (payload : Option Bytes) : Except Exc (List Event) :=
   let payloadTruthy := match payload with | some b => !b.isEmpty | none => false
@@ -342,21 +354,14 @@ def LogRec.stageHttpResponse2 (v : Variant) (r : LogRec) (payload : Option Bytes
       | none => []
     match payload with
     | none =>
-      -- len(None) / repr(None): not reachable from wbem_request (theorem C19_wbemRequest_response2_shapes)
+      -- len(None) / repr(None): not reachable from wbem_request (it passes None only right after resetting the
+      -- staged version to None, which returns above)
       if r.httpLevel = some .summary then
         pure [.log "http" "Response" [natStr (r.respStatus.getD 0), hstr, []]]
       else if truthyNat r.httpMax then throw (.py .typeError)
       else pure [.log "http" "Response" [natStr (r.respStatus.getD 0), hstr, "None".toList]]
     | some b => do
-      let up ←
-        if r.httpLevel = some .summary then pure []
-        else match r.httpMax with
-          | some n =>
-            if n ≠ 0 ∧ b.length > n then do
-              let s ← logDecode v (b.take n)
-              pure (s ++ "...".toList)
-            else logDecode v b
-          | none => logDecode v b
+      let up ← r.respPayloadText v b
       pure [.log "http" "Response" [natStr (r.respStatus.getD 0), hstr, up]]
   else pure []
 
